@@ -20,11 +20,11 @@ from vf.runner import Violation
 EPS = np.finfo(np.float64).eps
 # Scaled tolerances |a-b| <= K*eps*scale.  Calibrated on the unchanged tree (seeds 1-5, thorough): worst observed
 # ratios are recorded in the evidence (extra.worst_ratio_in_eps); K is ~100x the worst.
-K_M = 2e4        # M entries vs oracle, scale sqrt(Mii Mjj)          (worst observed ~ 60 eps)
-K_MUL = 1e3      # mj_mulM vs dense product, scale |M||x|            (worst observed ~ 4 eps)
-K_LDL = 2e4      # L'DL rebuild vs M, scale sqrt(Mii Mjj) * cond     (worst ~ 1 eps*cond)
-K_SOLVE = 1e3    # solve residuals, scale cond(M)*|x|                (worst ~ 1 eps*cond)
-K_RNE = 2e4      # bias / rne vs oracle, scale = sum of |terms|      (worst ~ 40 eps)
+K_M = 5e3        # M entries vs oracle, scale dyn.mass_matrix_scale      (worst observed ~ 45 eps)
+K_MUL = 256      # mj_mulM vs dense product, scale |M||x|            (worst observed ~ 2.5 eps)
+K_LDL = 128      # L'DL rebuild vs M, scale * cond                   (worst ~ 0.1 eps*cond)
+K_SOLVE = 128    # solve residuals, scale cond(M)*|x|                (worst ~ 0.9 eps*cond)
+K_RNE = 2e3      # bias / rne vs oracle, scale = dyn.rne return_scale  (worst ~ 22 eps)
 K_ID = 1e3       # engine-internal identities (same data, different summation order)
 COND_MAX = 1e8
 FD_TENDON = 1e-6  # step for d/dt of the oracle tendon Jacobian (tendon-armature bias); tolerance 1e-6 relative
@@ -105,7 +105,7 @@ def main(ck):
     S = kin.snap(m)
     k = kin.fk(S, np.array(d.qpos))
     qvel = np.array(d.qvel)
-    labels = list(gm.labels()) + gs.classify(lib, m)
+    labels = gs.brief(gm.labels(), ('armature:free', 'tendon:')) + gs.classify(lib, m)
 
     # ---- (a) M: symmetric, SPD, equals the reference
     M = lib.fullM(m, d)
@@ -117,6 +117,15 @@ def main(ck):
     P = dense_pattern(m)
     simple = np.array(m.dof_simplenum) > 0
     cross = np.abs(Ma * ~P).max() > 0 if nv else False
+    wo = np.linalg.eigvalsh(Mo)
+    degenerate_simple = bool(np.any(simple)) and not wo[0] > 1e-10 * wo[-1]
+    if degenerate_simple:
+      # redundant dofs on a body the compiler classified as "simple" (e.g. two collinear, axis-aligned slide joints):
+      # the true M is singular (outside the documented assumption "M is always invertible"), the engine stores its
+      # diagonal only. Counted and reported, not judged.
+      labels.append('carved:singular-simple-body')
+      ck.case(nontrivial=False, key=(gm.xml, seed), labels=labels)
+      return
     if cross:
       labels.append('tenarm-crossbranch')
       close('M', M[P], Mo[P], sc[P], K_M, 'inertia matrix entry (tree pattern)', 'M-vs-reference')
@@ -248,6 +257,8 @@ def main(ck):
   ck.extra['worst_ratio_in_eps'] = {k_: round(v, 2) for k_, v in worst.items()}
   ck.extra['tolerances'] = dict(K_M=K_M, K_MUL=K_MUL, K_LDL=K_LDL, K_SOLVE=K_SOLVE, K_RNE=K_RNE, COND_MAX=COND_MAX)
 
+
+replay = gs.make_replay(main)
 
 LEVEL = 'exploration'
 TECHNIQUE = ('property-based testing (Hypothesis model/state generators) against an independent numpy reference '
